@@ -214,7 +214,7 @@ def build_nasty_dlis(rng):
             eflrs.append(rng.choice([GLg.origin_full(well=rng.choice(NASTY_ASCII), company=company, field=b'second origin'),
                                      GLg.simple_eflr(b'WELL-REFERENCE', [(b'PERMANENT-DATUM', 20, None, None)], [((1, 0, b'WR'), [[b'ground level']])])]))
             kinds.append(1)
-        eflrs += [GLg.channel_eflr(chans_all), GLg.frame_eflr([dict(name=ty['name'], channels=ty['channels'], description=ty['description']) for ty in types])]
+        eflrs += [GLg.channel_eflr(rng.sample(chans_all, len(chans_all)) if rng.random() < 0.6 else chans_all), GLg.frame_eflr([dict(name=ty['name'], channels=ty['channels'], description=ty['description']) for ty in types])]
         kinds += [3, 4]
         if rng.random() < 0.3:
             eflrs.append(GLg.simple_eflr(b'TOOL', [(b'DESCRIPTION', 20, None, None)], [((1, 0, b'T1'), [[rng.choice(NASTY_ASCII)]])]))
